@@ -60,6 +60,7 @@ type ProxyParams struct {
 	BoltGoAway   bool         // C11: the bolt listener announces the stop with a go-away frame (enable_bolt_goaway)
 	LocalErr     bool         // some requests ask for a service that has no route, or whose cluster has no host: MOSN answers itself
 	UpIdleS      int          // cluster idle_timeout in seconds (0 = not configured): MOSN closes idle upstream connections itself
+	NoRoutesYet  bool         // the listener's router configuration exists but has no virtual hosts yet (route discovery pending): every request gets MOSN's own reply
 	GoAwayHeavy  bool         // bolt upstreams announce go-away on a quarter of their exchanges (C09/C03/C10 arms)
 	H2Stream     bool         // HTTP/2: the proxy forwards in stream mode (http2_use_stream: header block and body chunks as they come)
 	H2Trailers   bool         // HTTP/2: a third of the messages with a body end with trailing header fields
@@ -190,6 +191,9 @@ func DrawProxyParams(ch *sim.Choices, prop string) ProxyParams {
 	if prop == "C09" || (p.Faults && ch.Chance("params", "idlecloses", 1, 3)) {
 		p.IdleCloses = ch.Pick("params", "nidlecloses", 4)
 	}
+	if prop == "C09" && p.Proto == "http2" {
+		p.Faults = true // (connections closed by the peer at drawn instants: the outcome and gauge oracles apply, not the fidelity oracle of C18)
+	}
 	if prop == "C09" {
 		p.NConns = 2 + ch.Pick("params", "nconns9", 5)
 		p.UpIdleS = pickFrom(ch, "params", "upidle", []int{0, 0, 1, 20})
@@ -238,6 +242,9 @@ func DrawProxyParams(ch *sim.Choices, prop string) ProxyParams {
 			// fields as headers, so the scripted filters cannot read their verdicts: neither is generated.
 			p.Oneway, p.Filters = false, nil
 		}
+	}
+	if (prop == "C03" || prop == "C10") && !p.Auto && len(p.Filters) == 0 && p.Acts == nil && (p.Proto == "bolt" || p.Proto == "boltv2" || p.Proto == "http1") && ch.Chance("params", "noroutesyet", 1, 12) {
+		p.NoRoutesYet = true
 	}
 	if (prop == "C03" || prop == "C10" || prop == "C02") && !p.Auto && len(p.Filters) == 0 && ch.Chance("params", "localerr", 1, 3) {
 		switch p.Proto {
@@ -300,7 +307,7 @@ func protoChoices(prop string) []string {
 	}
 	switch prop {
 	case "C09":
-		return []string{"http1", "boltpp", "bolt"}
+		return []string{"http1", "boltpp", "bolt", "http2", "boltv2"}
 	case "C11":
 		return []string{"bolt", "http1", "boltpp", "boltv2", "http2"}
 	case "C01":
@@ -470,6 +477,10 @@ func (w *Proxy) buildConfig() []byte {
 	}}}
 	if p.Acts != nil {
 		routerCfg = w.c17Router(route)
+	}
+	if p.NoRoutesYet {
+		routerCfg = J{"router_config_name": "r0"} // named, delivered later (never, in this run)
+		w.S.Fault("w:router_without_virtual_hosts")
 	}
 	cfg := J{
 		"close_graceful": true,
@@ -936,7 +947,7 @@ func (w *Proxy) probeOK() bool {
 	if p.Proto != "http1" && peers.CodecFor(p.Proto) == nil {
 		return false // the probe speaks HTTP/1 or an xprotocol
 	}
-	if p.Proto == "tars" || p.Proto == "dubbo-thrift" || p.Auto || p.LocalErr || p.Acts != nil || len(p.Filters) > 0 {
+	if p.Proto == "tars" || p.Proto == "dubbo-thrift" || p.Auto || p.LocalErr || p.NoRoutesYet || p.Acts != nil || len(p.Filters) > 0 {
 		return false
 	}
 	for _, m := range w.hostMode {
@@ -951,6 +962,9 @@ func (w *Proxy) probeSize() int {
 	p := w.P
 	if p.Proto != "http1" && peers.CodecFor(p.Proto) == nil {
 		return 0 // the probe speaks HTTP/1 or an xprotocol
+	}
+	if p.NoRoutesYet {
+		return 0 // nothing is routed in this run
 	}
 	for _, m := range w.hostMode {
 		if m != 0 {
@@ -1136,7 +1150,7 @@ func (w *Proxy) Nontrivial() bool {
 }
 
 // XSites are the exploration yield points in /repo (build tag verif).
-var XSites = []string{"x:proxy.timer.global.cas", "x:proxy.timer.pertry.cas", "x:proxy.upstream.onreceive.cas"}
+var XSites = []string{"x:proxy.timer.global.cas", "x:proxy.timer.pertry.cas", "x:proxy.upstream.onreceive.cas", "x:http1.client.reader"}
 
 func (w *Proxy) setupClients() {
 	reqIdx := 0
@@ -1207,6 +1221,9 @@ func (w *Proxy) setupXClient(ci int, proto string, reqIdxP *int) {
 				svc = pickFrom(ch, "work", "localerrkind", []string{"none", "empty"})
 				r.Extra["local_err"] = svc
 				s.Fault("w:local_error_reply_" + svc)
+			}
+			if p.NoRoutesYet {
+				r.Extra["local_err"] = "none"
 			}
 			f.Headers = []peers.KV{{K: "service", V: svc}, {K: "tok", V: tok}}
 			r.Extra["svc"] = svc
@@ -1395,7 +1412,7 @@ func (w *Proxy) setupH1Client(ci int, reqIdxP *int) {
 			if p.Acts != nil {
 				svc = fmt.Sprintf("svc%d", ch.Pick("work", "svc", 3))
 				if svc == "svc1" && p.Acts.Rewrite != "" && ch.Chance("work", "pretarget", 2, 3) {
-					m.Target = pickFrom(ch, "work", "pretarget", []string{"/pre/x", "/pre/a/b?q=1", "/pre", "/pre/", "/prefix-not/x"})
+					m.Target = pickFrom(ch, "work", "pretarget", []string{"/pre/x", "/pre/a/b?q=1", "/pre", "/pre/", "/prefix-not/x", "/pre/a%20b", "/pre/r%3Fd/v?x=1", "/pre/%E4%BD%A0/x%23y"})
 					r.Target = m.Target
 				}
 			}
@@ -1410,6 +1427,9 @@ func (w *Proxy) setupH1Client(ci int, reqIdxP *int) {
 				s.Fault("w:local_error_reply_" + svc)
 			}
 			r.Extra["svc"] = svc
+			if p.NoRoutesYet {
+				r.Extra["local_err"] = "none"
+			}
 			if _, _, cross := crossProto(p.Proto); cross {
 				r.Extra["resp_status"] = fmt.Sprint(pickFrom(ch, "work", "xstatus", []int{200, 200, 204, 404, 500, 503}))
 				r.Extra["resp_len"] = fmt.Sprint(pickFrom(ch, "work", "xresplen", []int{0, 1, 100, 20000}))
